@@ -15,6 +15,8 @@ void run_h3(const std::string& op, const std::string& fam, const MeshIn& in, Cur
   if(fam == "L3") { Ops<ShapeT, FamL3>::run(op, cx, c, o); return; }
   if(fam == "D0") { Ops<ShapeT, FamD0>::run(op, cx, c, o); return; }
   if(fam == "B2") { Ops<ShapeT, FamB2>::run(op, cx, c, o); return; }
+  if(fam == "CR") { Ops<ShapeT, FamCR>::run(op, cx, c, o); return; }
+  if(fam == "D1") { Ops<ShapeT, FamD1>::run(op, cx, c, o); return; }
   o << "UNSUPPORTED";
 }
 }
